@@ -32,8 +32,9 @@ fn mk(kind, i) {
   if kind == 10 { return mksub(mkcls((i, 4))).new(); }
   return [i];
 }
+fn mkgen(prev, i) { return Fiber.new(|p| { var loc = [i, p == nil]; return || { return loc; }; }).call(prev); }
 """
-NKINDS = 11
+NKINDS = 12
 
 # per-iteration garbage statements ({i} loop counter expression, {s} small cyclic number)
 GARBAGE = {
@@ -70,12 +71,19 @@ GARBAGE = {
     "import_missing": 'try { impmissing(); } catch e11 { acc = acc + 1; }',
     "interp": 'acc = acc + "${[1, 2]}".len();',
     "nested_junk": "var g16 = [[[i, (i, [i])]], {i: {i: [i]}}];",
+    # each new fiber finishes its predecessor and is then left suspended: only `headf` and `prevf` stay referenced
+    "fiber_daisy_chain": "var g17 = daisy(prevf); g17.call(); prevf = g17;",
+    "import_uncompilable": 'try { impbad(); } catch e12 { acc = acc + 1; }',
+    "import_uncompilable_once": 'if i == 3 { try { impbad(); } catch e13 { acc = acc + 1; } }',
 }
 EXTRA = """fn fpc(site, pad) { var l = [pad]; print(("chk", site)); return l; }
 fn fret(x) { try { return [x, x]; } finally { mkclo(x); } }
 fn impok() { import "c16mod"; return c16mod.one(); }
 fn impmissing() { import "c16nomod"; return 1; }
+fn impbad() { import "c16bad"; return 1; }
+fn daisy(prev) { return Fiber.new(|| { prev.call(); Fiber.yield(1); return 2; }); }
 """
+C16BAD = "var = ;\n"
 C16MOD = "fn one() { return 1; }\nvar table = [1, 2, 3];\n"
 
 
@@ -112,7 +120,8 @@ def render(ir, n):
     e("fn spike(m, kind) { var big = []; var j = 0; while j < m { big.push(mk(kind, j)); j = j + 1; } return big.len(); }")
     e("fn run(n) {")
     e("  var acc = 0;")
-    e("  var ring = [%s];" % ", ".join("mk(%d, %d)" % (kd, j) for j, kd in enumerate(ir["slots"])))
+    e("  var ring = [%s];" % ", ".join(("mkgen(nil, %d)" % j) if kd == 11 else ("mk(%d, %d)" % (kd, j)) for j, kd in enumerate(ir["slots"])))
+    e("  var headf = Fiber.new(|| { Fiber.yield(0); return 0; }); headf.call(); var prevf = headf;")
     e("  var kinds = [%s];" % ", ".join(str(kd) for kd in ir["slots"]))
     for sp in ir["spikes"]:
         if sp[0] == "start":
@@ -120,7 +129,7 @@ def render(ir, n):
     e("  var i = 0;")
     e("  while i < n {")
     e("    var s = i %% %d;" % k)
-    e("    ring[s] = mk(kinds[s], i);")
+    e("    if kinds[s] == 11 { ring[s] = mkgen(ring[s], i); } else { ring[s] = mk(kinds[s], i); }")
     for sp in ir["spikes"]:
         if sp[0] == "middle":
             e("    if i == %d { acc = acc + spike(%d, %d); }" % (ir["n"] // 2, sp[1], sp[2]))
@@ -174,8 +183,8 @@ class C16:
     ID = "C16"
     LEVEL = "exploration"
     TIMEOUT = 40.0
-    RULE = ("case = generated loop program with a bounded live set (ring of 1-60 slots of 11 object kinds replaced for ever; optional "
-            "transient spikes of 500-6000 live objects at the start or in the middle) and a random subset of 35 per-iteration garbage "
+    RULE = ("case = generated loop program with a bounded live set (ring of 1-60 slots of 12 object kinds replaced for ever; optional "
+            "transient spikes of 500-6000 live objects at the start or in the middle) and a random subset of 38 per-iteration garbage "
             "statements (every object kind, iterators, fibers finished/abandoned/resumed, classes and subclasses declared in the loop, "
             "fresh ranges, failing natives and operations, thrown objects, injected host failures at top level / in a callee / in a "
             "fiber (fault plan over dynamic occurrences), returns through finally, successful and failing imports); each case runs "
@@ -207,7 +216,7 @@ class C16:
         src = render(sc["ir"], n)
         cfg = {"gc": {"mode": mode, "quarantine": False, "monitor": True}, "max_events": 64}
         run_sc = {"programs": [{"kind": "snippet", "source": src}], "tape": [], "faults": sc["faults"],
-                  "fs": {"c16mod": {"source": C16MOD, "reads": []}}, "config": cfg}
+                  "fs": {"c16mod": {"source": C16MOD, "reads": []}, "c16bad": {"source": C16BAD, "reads": []}}, "config": cfg}
         return src, ctx.run("release+hooks", run_sc)
 
     def check(self, sc, ctx):
